@@ -135,6 +135,9 @@ func (i *interpreter) mapLookup(m *omap, key value, elemT types.Type) (value, va
 			i.raceRead(m.ents[exact].vp)
 			return copyVal(*m.ents[exact].vp), true
 		}
+		if elemT == nil {
+			return iface{}, false
+		}
 		return zero(elemT), false
 	}
 	// try an ite chain
@@ -142,6 +145,8 @@ func (i *interpreter) mapLookup(m *omap, key value, elemT types.Type) (value, va
 	var ok value
 	if exact >= 0 {
 		res, ok = copyVal(*m.ents[exact].vp), true
+	} else if elemT == nil {
+		res, ok = iface{}, false
 	} else {
 		res, ok = zero(elemT), false
 	}
@@ -167,6 +172,9 @@ func (i *interpreter) mapLookup(m *omap, key value, elemT types.Type) (value, va
 	}
 	if exact >= 0 {
 		return copyVal(*m.ents[exact].vp), true
+	}
+	if elemT == nil {
+		return iface{}, false
 	}
 	return zero(elemT), false
 }
